@@ -316,13 +316,17 @@ func persistMergedRestField(segments []*Segment, dropsIn []*roaring.Bitmap, fiel
 		}
 
 		// can no longer optimize by copying, since chunk factor could have changed
+		var termFreq uint64
 		lastDocNum, lastFreq, lastNorm, bufLoc, err = mergeTermFreqNormLocs(
 			fieldsMap, postItr, newDocNums[itrI], newRoaring,
-			tfEncoder, locEncoder, bufLoc, fieldDocTracking)
+			tfEncoder, locEncoder, bufLoc, fieldDocTracking, &termFreq)
 
 		if err != nil {
 			return err
 		}
+
+		// total number of term occurrences of the surviving documents
+		fieldFreqs[uint16(fieldID)] += termFreq
 
 		prevTerm = prevTerm[:0] // copy to prevTerm in case Next() reuses term mem
 		prevTerm = append(prevTerm, term...)
@@ -458,7 +462,6 @@ func prepareNewTerm(newSegDocCount uint64, chunkMode uint32, tfEncoder, locEncod
 			return err
 		}
 		newCard += pl.Count()
-		fieldFreqs[uint16(fieldID)] += newCard
 	}
 	// compute correct chunk size with this
 	var chunkSize uint64
@@ -574,7 +577,7 @@ const numUintsLocation = 4
 
 func mergeTermFreqNormLocs(fieldsMap map[string]uint16, postItr *PostingsIterator,
 	newDocNums []uint64, newRoaring *roaring.Bitmap,
-	tfEncoder, locEncoder *chunkedIntCoder, bufLoc []uint64, docTracking *roaring.Bitmap) (
+	tfEncoder, locEncoder *chunkedIntCoder, bufLoc []uint64, docTracking *roaring.Bitmap, sumFreq *uint64) (
 	lastDocNum, lastFreq, lastNorm uint64, bufLocOut []uint64, err error) {
 	next, err := postItr.Next()
 	for next != nil && err == nil {
@@ -588,6 +591,7 @@ func mergeTermFreqNormLocs(fieldsMap map[string]uint16, postItr *PostingsIterato
 
 		nextFreq := next.Frequency()
 		nextNorm := uint64(math.Float32bits(float32(next.Norm())))
+		*sumFreq += uint64(nextFreq)
 
 		locs := next.Locations()
 
